@@ -13,6 +13,7 @@ import (
 	"github.com/taurusgroup/multi-party-sig/pkg/math/polynomial"
 	"github.com/taurusgroup/multi-party-sig/pkg/paillier"
 	"github.com/taurusgroup/multi-party-sig/pkg/party"
+	"github.com/taurusgroup/multi-party-sig/verif/fx"
 	"github.com/taurusgroup/multi-party-sig/verif/ref"
 	"github.com/taurusgroup/multi-party-sig/verif/vk"
 )
@@ -224,6 +225,17 @@ func c19Pairs(r *vk.Rand) []pair {
 	e1 := aExp(r, 2, false)
 	e2 := aExp(r, 2, false)
 	ps = append(ps, pair{"exponent-other", []aitem{e1}, []aitem{e2}})
+	// the same stored points read as X*(A1 + A2*X + ...) (identity constant term) and as A1 + A2*X + ...
+	{
+		ec := aExp(r, 2, true)
+		if le, ok := ec.Lib.(*polynomial.Exponent); ok && le.IsConstant {
+			c := fx.DeepCopy(le)
+			c.IsConstant = false
+			if b, err := c.MarshalBinary(); err == nil {
+				ps = append(ps, pair{"exponent-constant-flag", []aitem{ec}, []aitem{{"exponent", b, c}}})
+			}
+		}
+	}
 	// an item vs. its own framing pasted as bytes, for the documented framing and for weakened framings
 	for _, dl := range []bool{true, false} {
 		for _, bl := range []bool{true, false} {
@@ -444,6 +456,25 @@ func c19Commit(t *vk.T, i int) {
 	cm, dm, _ := ctx.Commit(bs[:4], bs[4:])
 	alts = append(alts, alt{"items-merged", cm, dm, []aitem{aBytes(bs)}, ctx})
 	alts = append(alts, alt{"items-shifted", cm, dm, []aitem{aBytes(bs[:5]), aBytes(bs[5:])}, ctx})
+	// a cheating committer chooses the decommitment itself and computes h(data, decommitment) with the library's own
+	// primitives: the digest matches, yet a decommitment of wrong length or all zero must be refused
+	forge := func(dm hash.Decommitment) hash.Commitment {
+		h := ctx.Clone()
+		for _, it := range libs(seq) {
+			_ = h.WriteAny(it)
+		}
+		_ = h.WriteAny(dm)
+		return h.Sum()
+	}
+	if bytes.Equal(forge(d), c) { // the hand computation is the one Commit uses (otherwise the forgeries prove nothing)
+		t.Obs("forged_commitments", 1)
+		for _, fd := range []struct {
+			name string
+			d    hash.Decommitment
+		}{{"zero", make([]byte, 32)}, {"one-byte", []byte{7}}, {"short", bytes.Repeat([]byte{3}, 31)}, {"long", bytes.Repeat([]byte{3}, 33)}, {"empty", []byte{}}, {"nil", nil}} {
+			alts = append(alts, alt{"forged-for-" + fd.name + "-decommitment", forge(fd.d), fd.d, seq, ctx})
+		}
+	}
 	for _, a := range alts {
 		var ok bool
 		if p, fr, txt := vk.Guard(func() { ok = a.h.Decommit(a.c, a.d, libs(a.s)...) }); p {
